@@ -4,7 +4,7 @@ EXPLANATION = ('All sinks plug into one driver that never observes the sink (app
                'each sink\'s append() hands exactly those bytes -- or, for wchar_t/char16_t/char32_t streams, exactly their UTF-16/32 transcoding under the default validation -- to its stream, and for ARBITRARY (ch, count) append_char() '
                'hands over exactly count copies; the string sink (ST::format) stores the same bytes and its Latin-1 variant (ST::format_latin_1) the Latin-1->UTF-8 transcoding; inserting an ST::string into a basic_ostream hands over exactly '
                'its contents transcoded to the stream\'s character type; extracting from a basic_istream stores exactly the token the stream\'s std::basic_string extraction produced (arbitrary non-whitespace units incl. NUL and malformed sequences), transcoded to UTF-8, or throws ST::unicode_error exactly for a malformed token (default validation) leaving the target unchanged. fwrite/fputc/ostream::write/put/operator<<(basic_string) and std::basic_string are ENVIRONMENT: modelled as logs; native replay uses real open_memstream / ostringstream objects.')
-BOUNDS = {'quick': 'chunks of 3 arbitrary bytes (all values, so malformed UTF-8 is included), pad count <= 3 (<= 33 for the FILE*, ostream<char>, ostream<wchar_t> and string sinks), ASCII pad character; strings of 3 bytes for insertion; extraction: tokens of 1..3 units (all four stream character types at 3, char and char16_t at 1..2)', 'thorough': 'chunks of 4..5 bytes; extraction: tokens of 4 units'}
+BOUNDS = {'quick': 'chunks of 3 arbitrary bytes (all values, so malformed UTF-8 is included), pad count <= 3 (<= 33 for the FILE*, ostream<char>, ostream<wchar_t> and string sinks), ASCII pad character; strings of 3 bytes for insertion; entry points printf/writef on x{}y with a 2-byte ASCII argument; extraction: tokens of 1..3 units (all four stream character types at 3, char and char16_t at 1..2)', 'thorough': 'chunks of 4..5 bytes; extraction: tokens of 4 units'}
 OUTSIDE = 'libstdc++ stream machinery (sentry, locale, width handling, whitespace skipping and token delimiting of operator>>(istream&, basic_string&): the token is an arbitrary environment value), transcode(a)+transcode(b) == transcode(a+b) for chunks that split a character (the driver only splits at field boundaries)'
 ST = ('_ZNSo', '_ZNSt13basic_ostream', '_ZStls', '_ZNSt7__cxx1112basic_string', '_ZNKSt7__cxx1112basic_string', '_ZSt16__ostream_insert', '_ZNSaI', '_ZNSt9basic_ios', '_ZNKSt9basic_ios', '_ZNSt8ios_base', '_ZStrs', '_ZNSi', '_ZNSt13basic_istream')
 SINKS = {1: 'stdio', 2: 'ostream_char', 3: 'ostream_wchar', 4: 'ostream_char16', 5: 'ostream_char32', 6: 'string', 7: 'string_latin1'}
@@ -25,6 +25,10 @@ def queries():
                 if tier == 'quick' and n < 3 and sk in (3, 5): continue
                 qs.append(Q('extract_%s_n%d_%s' % (SINKS[sk], n, tier), 'C17_sinks.c', 'sinks.cpp', config='small', noinline=True, stubs=ST, defs={'SINK': sk, 'OP': 3, 'N': n}, unwind=4 * n + 6, hunwind=4 * n + 8, heap_cap=max(4 * n + 8, 32), object_bits=10,
                             tiers=(tier,), bound={'stream': SINKS[sk], 'token units': n, 'previous value of the target': '<= 5 bytes'}, timeout=900 if tier == 'quick' else 3000, mem_gb=8))
+    # the entry points themselves (ST::printf / ST::writef with one argument): writer construction + driver + sink, end to end
+    for sk in (1, 2, 4):      # the string sinks (ST::format / format_latin_1) through the growing string_stream: no verdict in 900 s; their parts are C16 (stream) and C10/C11 (driver)
+        qs.append(Q('entry_%s' % SINKS[sk], 'C17_sinks.c', 'sinks.cpp', config='small', noinline=True, stubs=ST, models=('core', 'libc', 'strtol'), defs={'SINK': sk, 'OP': 4, 'N': 2, 'CMAX': 4}, unwind=12, hunwind=16, heap_cap=48, object_bits=10,
+                    bound={'entry': SINKS[sk], 'format': 'x{}y', 'argument': '2 ASCII bytes'}, timeout=900, mem_gb=10))
     # long runs of padding (append_char with a count up to 33: block-wise implementations go wrong at multiples of their block size)
     for sk in (1, 2, 3, 6):
         qs.append(Q('pad_run_%s' % SINKS[sk], 'C17_sinks.c', 'sinks.cpp', config='small', noinline=True, stubs=ST, defs={'SINK': sk, 'OP': 1, 'N': 1, 'CMAX': 33}, unwind=36, hunwind=40, heap_cap=192, object_bits=10,
